@@ -823,6 +823,7 @@ Lemma pim_IAD : forall t0 (s : vsock), IAD t0 s -> spI (IAD t0) (process_all_inc
 Proof.
   intros t0 s Hi. apply pim_rule; try exact Hi.
   - intros a b F [K1 K2]. split; [eapply IA_fpr; eauto|]. destruct F as (E1 & _). rewrite E1. exact K2.
+  - intros a l [K1 K2]. split; [eapply IA_skr; [|exact K1]; skr_leaf | exact K2].
   - intros a c tr ti [K1 K2]. split; [eapply IA_skr; [|exact K1]; skr_leaf | exact K2].
   - intros s1 s2 h res [K1 K2] E. split; [eapply IA_skr; [eapply pim_ack_skr; exact E | exact K1]|].
     eapply pim_ack_DM1; eauto.
@@ -947,6 +948,7 @@ Lemma pim_nodata : forall s : vsock,
 Proof.
   intros s Hi. apply pim_rule; try exact Hi.
   - intros a b (_ & _ & _ & _ & _ & _ & _ & (l & E & Hl) & _) K. rewrite E. apply Forall_app. split; assumption.
+  - intros a l K. exact K.
   - intros a c tr ti K. exact K.
   - intros s1 s2 h res K E. destruct (pim_ack_skr cci _ _ _ _ E) as (E1 & _). rewrite E1. exact K.
   - intros s3 rc hd rtt now segs' p recalc K _ _. exact K.
